@@ -252,6 +252,8 @@ def op4(ctx):
     for e in rw.log:
         if e["kind"] == "call" and e.get("effect") == "copy_from_slice":
             dst, src = e["dst"], e["src"]
+            if tag(src) == "ref":
+                src = evw._deref_val(src)        # the bytes behind a reference to a local (`let v = x.to_le_bytes(); .. &v`)
             rng = None
             if tag(dst) == "call" and dst[1].endswith("index_mut"):
                 rr_ = dst[2][1]
